@@ -94,7 +94,10 @@ func (c *wsConnection) subscribe(ctx context.Context, id string, req *common.Req
 	c.subs[id] = handler
 	c.subsMu.Unlock()
 
-	subscribeCtx, subscribeCancel := context.WithTimeout(ctx, c.writeTimeout)
+	// The write must not be bound to the subscriber's own cancellation: a cancelled write closes
+	// the whole WebSocket connection, which is shared with other subscriptions. It stays bounded
+	// by the write timeout; a subscriber that went away unsubscribes through the returned func.
+	subscribeCtx, subscribeCancel := context.WithTimeout(context.WithoutCancel(ctx), c.writeTimeout)
 	defer subscribeCancel()
 
 	if err := c.protocol.Subscribe(subscribeCtx, c.conn, id, req); err != nil {
